@@ -399,7 +399,28 @@ func (req *Request) write(w io.Writer, usingProxy bool, extraHeaders Header) err
 			}
 		}
 	}
-	// TODO(bradfitz): escape at least newlines in ruri?
+	// Refuse to write a request line or Host header that a client-controlled
+	// value (e.g. a HTTP/2 or SPDY pseudo header) could use to inject header
+	// fields or whole requests.
+	if !validMethod(valueOrDefault(req.Method, "GET")) {
+		return fmt.Errorf("http: invalid method %q", req.Method)
+	}
+	if strings.IndexFunc(ruri, isCTLOrSpace) >= 0 {
+		return errors.New("http: can't write control character or space in request URI")
+	}
+	if strings.IndexFunc(host, isCTLOrSpace) >= 0 {
+		return errors.New("http: can't write control character or space in Host")
+	}
+	for k, vv := range req.Header {
+		if !validHeaderFieldName(k) {
+			return fmt.Errorf("http: invalid header field name %q", k)
+		}
+		for _, v := range vv {
+			if !validHeaderFieldValue(v) {
+				return fmt.Errorf("http: invalid header field value for %q", k)
+			}
+		}
+	}
 
 	// Wrap the writer in a bufio Writer if it's not already buffered.
 	// Don't always call NewWriter, as that forces a bytes.Buffer
